@@ -32,6 +32,7 @@ type replayGen struct {
 	imports map[string]string // path -> alias
 	sorts   *Sorts
 	usedNil bool
+	abs     *abstractor
 	unknowns [][2]string
 }
 
@@ -80,6 +81,16 @@ func (g *replayGen) goLit(v string, t types.Type) (string, error) {
 			if n, ok := smtNum(v); ok {
 				return g.typeStr(t) + "(" + n + ")", nil
 			}
+		case u.Info()&types.IsString != 0:
+			// abstract string element: the empty string, or a distinct placeholder string
+			if z, ok := g.abs.zero[strings.TrimSpace(v)]; ok && z == "str_empty" {
+				return g.typeStr(t) + `("")`, nil
+			}
+			if _, k, ok := tokenIndex(v); ok {
+				s := fmt.Sprintf("vps%d", k)
+				g.abs.byLit["str:"+hexOf([]byte(s))] = g.abs.rewrite(strings.TrimSpace(v))
+				return fmt.Sprintf("%s(%q)", g.typeStr(t), s), nil
+			}
 		}
 		return "", fmt.Errorf("no Go literal for %s value %q", t, truncateStr(v, 40))
 	case *types.Struct:
@@ -96,10 +107,11 @@ func (g *replayGen) goLit(v string, t types.Type) (string, error) {
 		}
 		var parts []string
 		for i, f := range ss.Fields {
-			if f.Name == "_" {
-				continue
+			if f.Name == "_" || f.Name == "#rest" {
+				continue // pruned fields stay at their zero value
 			}
-			if !u.Field(i).Exported() && u.Field(i).Pkg() != g.pkg {
+			gf := goField(u, f.Name)
+			if gf == nil || !gf.Exported() && gf.Pkg() != g.pkg {
 				// cannot set a foreign unexported field: only acceptable if it is the zero value
 				continue
 			}
@@ -135,6 +147,21 @@ func (g *replayGen) goLit(v string, t types.Type) (string, error) {
 			return fmt.Sprintf("func() %s { x := %s; return &x }()", g.typeStr(t), inner), nil
 		}
 	case *types.Array:
+		if n, isBA := baLen(t); isBA {
+			// abstract byte-array element: the zero array, or a distinct placeholder value
+			so := fmt.Sprintf("BA%d", n)
+			if z, ok := g.abs.zero[strings.TrimSpace(v)]; ok && z == so+".zero" {
+				return g.typeStr(t) + "{}", nil
+			}
+			if _, k, ok := tokenIndex(v); ok && n >= 4 {
+				bs := make([]byte, n)
+				copy(bs, baLiteralBytes(k))
+				g.abs.byLit[fmt.Sprintf("ba%d:%s", n, hexOf(bs))] = g.abs.rewrite(strings.TrimSpace(v))
+				lb := baLiteralBytes(k)
+				return fmt.Sprintf("%s{%d, %d, %d, %d}", g.typeStr(t), lb[0], lb[1], lb[2], lb[3]), nil
+			}
+			return "", fmt.Errorf("no Go literal for byte array value %q", truncateStr(v, 40))
+		}
 		elems, def, err := arrayModel(v)
 		if err == nil && u.Len() <= 4096 {
 			var parts []string
@@ -184,6 +211,18 @@ func (g *replayGen) goLit(v string, t types.Type) (string, error) {
 	return "", fmt.Errorf("no Go literal for %s value %q", t, truncateStr(v, 60))
 }
 
+func hexOf(b []byte) string { return fmt.Sprintf("%x", b) }
+
+// goField finds the Go struct field with the given name (nil for the synthetic "#rest").
+func goField(st *types.Struct, name string) *types.Var {
+	for i := 0; i < st.NumFields(); i++ {
+		if st.Field(i).Name() == name {
+			return st.Field(i)
+		}
+	}
+	return nil
+}
+
 func isOpaqueForReplay(t types.Type) bool {
 	switch t.Underlying().(type) {
 	case *types.Interface, *types.Signature, *types.Chan, *types.Map:
@@ -230,6 +269,8 @@ func (g *replayGen) smtPrinter(expr string, t types.Type, depth int) (string, bo
 			return fmt.Sprintf("fmt.Sprint(uint64(%s))", expr), true
 		case u.Info()&types.IsInteger != 0:
 			return fmt.Sprintf("vpSigned(int64(%s))", expr), true
+		case u.Info()&types.IsString != 0:
+			return fmt.Sprintf("\"str:\" + vpHex([]byte(string(%s)))", expr), true
 		}
 	case *types.Struct:
 		ss := g.sorts.StructOf(t)
@@ -240,10 +281,10 @@ func (g *replayGen) smtPrinter(expr string, t types.Type, depth int) (string, bo
 			return fmt.Sprintf("%q", ss.Ctor), true
 		}
 		parts := []string{fmt.Sprintf("%q", "("+ss.Ctor)}
-		for i, f := range ss.Fields {
+		for _, f := range ss.Fields {
 			var p string
 			ok := false
-			if u.Field(i).Exported() || u.Field(i).Pkg() == g.pkg {
+			if gf := goField(u, f.Name); gf != nil && (gf.Exported() || gf.Pkg() == g.pkg) {
 				p, ok = g.smtPrinter("("+expr+")."+f.Name, f.Type, depth+1)
 			}
 			if !ok {
@@ -257,6 +298,9 @@ func (g *replayGen) smtPrinter(expr string, t types.Type, depth int) (string, bo
 	case *types.Array:
 		if u.Len() > 4096 {
 			return "", false
+		}
+		if n, isBA := baLen(t); isBA {
+			return fmt.Sprintf("func() string { vpa := %s; return \"ba%d:\" + vpHex(vpa[:]) }()", expr, n), true
 		}
 		ep, ok := g.smtPrinter("("+expr+")[vpi]", u.Elem(), depth+1)
 		if !ok {
@@ -295,7 +339,7 @@ func replayImpl(w *World, root string, rep *OblReport, workDir string) (string, 
 	}
 	model := parseModel(rep.Model)
 	src := c.fnSrc
-	g := &replayGen{pkg: src.Pkg.Types, imports: map[string]string{}, sorts: c.sorts}
+	g := &replayGen{pkg: src.Pkg.Types, imports: map[string]string{}, sorts: c.sorts, abs: newAbstractor(model)}
 	sig := src.Obj.Type().(*types.Signature)
 	var inLits []string
 	inSMT := map[string]string{}
@@ -304,7 +348,7 @@ func replayImpl(w *World, root string, rep *OblReport, workDir string) (string, 
 		if !ok {
 			return "REPLAY-UNAVAILABLE", "model lacks input " + in.Name
 		}
-		inSMT[in.Name] = mv
+		inSMT[in.Name] = g.abs.rewrite(mv)
 		lit, err := g.goLit(mv, in.Type)
 		if err != nil {
 			return "REPLAY-UNAVAILABLE", "input " + in.Name + ": " + err.Error()
@@ -411,6 +455,7 @@ func replayImpl(w *World, root string, rep *OblReport, workDir string) (string, 
 	}
 	b.WriteString(")\n\nfunc vpSigned(x int64) string {\n\tif x < 0 {\n\t\tif x == -9223372036854775808 {\n\t\t\treturn \"(- 9223372036854775808)\"\n\t\t}\n\t\treturn fmt.Sprintf(\"(- %d)\", -x)\n\t}\n\treturn fmt.Sprint(x)\n}\n\n")
 	b.WriteString("func vpArray(n int, es, zero string, at func(int) string) string {\n\ts := \"((as const (Array Int \" + es + \")) \" + zero + \")\"\n\tfor i := 0; i < n; i++ {\n\t\ts = \"(store \" + s + \" \" + fmt.Sprint(i) + \" \" + at(i) + \")\"\n\t}\n\treturn s\n}\n\n")
+	b.WriteString("func vpHex(b []byte) string { return fmt.Sprintf(\"%x\", b) }\n\n")
 	b.WriteString("func vpErr(e error) string {\n\tif e == nil {\n\t\treturn \"err_nil\"\n\t}\n\treturn \"vp_some_err\"\n}\n\n")
 	b.WriteString("func TestVerifReplay(t *testing.T) {\n\tdefer func() {\n\t\tif r := recover(); r != nil {\n\t\t\tfmt.Printf(\"VERIF-REPLAY-PANIC %v\\n\", r)\n\t\t}\n\t}()\n")
 	b.WriteString(body.String())
@@ -453,7 +498,7 @@ func replayImpl(w *World, root string, rep *OblReport, workDir string) (string, 
 		if strings.HasPrefix(ln, "VERIF-REPLAY-OUT ") {
 			rest := strings.TrimPrefix(ln, "VERIF-REPLAY-OUT ")
 			k := strings.Index(rest, " ")
-			outs[rest[:k]] = rest[k+1:]
+			outs[rest[:k]] = g.abs.rewriteConcrete(rest[k+1:])
 		}
 		if strings.HasPrefix(ln, "VERIF-REPLAY-PANIC ") {
 			panicked = strings.TrimPrefix(ln, "VERIF-REPLAY-PANIC ")
@@ -480,7 +525,7 @@ func replayImpl(w *World, root string, rep *OblReport, workDir string) (string, 
 	}
 	_ = printable
 	// evaluate the failed clause on the concrete inputs/outputs
-	verdict, why := evalClauseConcrete(w, c, o, inSMT, outs, workDir, rep.Name, g.unknowns)
+	verdict, why := evalClauseConcrete(w, c, o, inSMT, outs, workDir, rep.Name, g.unknowns, g.abs)
 	detail["clause_eval"] = why
 	db, _ := json.Marshal(detail)
 	return verdict, string(db)
@@ -488,7 +533,7 @@ func replayImpl(w *World, root string, rep *OblReport, workDir string) (string, 
 
 // evalClauseConcrete re-evaluates the contract clause with parameters bound to the model's values
 // and results bound to what the real function returned.
-func evalClauseConcrete(w *World, c *Ctx, o *Obligation, inSMT, outs map[string]string, workDir, name string, unknowns [][2]string) (verdict, why string) {
+func evalClauseConcrete(w *World, c *Ctx, o *Obligation, inSMT, outs map[string]string, workDir, name string, unknowns [][2]string, abs *abstractor) (verdict, why string) {
 	defer func() {
 		if r := recover(); r != nil {
 			verdict, why = "REPLAY-UNAVAILABLE", fmt.Sprint("clause evaluation failed: ", r)
@@ -498,6 +543,10 @@ func evalClauseConcrete(w *World, c *Ctx, o *Obligation, inSMT, outs map[string]
 	sig := src.Obj.Type().(*types.Signature)
 	nc := newCtx(w, c.specs, "replay")
 	nc.sorts = c.sorts
+	// abstract elements of uninterpreted sorts: declared constants, pairwise distinct
+	absDecls, absFacts := abs.decls()
+	nc.decls = append(nc.decls, absDecls...)
+	nc.axioms = append(nc.axioms, absFacts...)
 	for _, u := range unknowns {
 		nc.decls = append(nc.decls, fmt.Sprintf("(declare-const %s %s)", u[0], u[1]))
 	}
